@@ -99,6 +99,8 @@ def r_expr(e, st):
         return f"(!bound({r_term(V(e[1]), st)}))"
     if op == "isIRI":
         return f"isIRI({r_term(V(e[1]), st)})"
+    if op in ("exists", "notexists"):
+        return ("NOT EXISTS" if op == "notexists" else "EXISTS") + " { " + " ".join(f"{r_term(a, st)} {r_term(b, st)} {r_term(c, st)} ." for a, b, c in e[1]) + " }"
     raise ValueError(op)
 
 
@@ -196,6 +198,12 @@ def _query(g):
         # a sub-SELECT that is evaluated before the outer basic graph pattern and projects only ?s
         where.insert(0, {"t": "subselect", "q": {"select": ["s"], "distinct": g.chance(0.3), "where": [{"t": "bgp", "triples": [[V("s"), g.pick(PREDS), V("k")]]}]}})
         outer_bgp_vars = [v for v in outer_bgp_vars if v not in ("s", "k")]
+    elif g.chance(0.15):
+        # the group starts with VALUES: everything after it is evaluated once per row of the table
+        where.insert(0, {"t": "values", "var": "s", "vals": [g.pick(SUBS_C) for _ in range(g.randint(1, 3))]})
+        if g.chance(0.5):
+            where.insert(1, {"t": "filter", "e": ["exists", [[V("s"), g.pick(PREDS), V("e1")]]]})
+        outer_bgp_vars = [v for v in outer_bgp_vars if v != "s"]
     for _ in range(g.randint(0, 3)):
         k = g.choice(["optional", "optional-filter", "union", "minus", "filter", "bind", "values", "subselect", "group", "bgp2"])
         if k == "optional":
@@ -207,7 +215,7 @@ def _query(g):
         elif k == "minus":
             where.append({"t": "minus", "p": [{"t": "bgp", "triples": [[V("s"), g.pick(PREDS), g.pick(OBJS_C)]]}]})
         elif k == "filter":
-            where.append({"t": "filter", "e": g.choice([["!=", V("s"), V("o")], ["=", V("o"), g.pick(OBJS_C)], ["bound", "x"], ["!bound", "x"], ["isIRI", "o"]])})
+            where.append({"t": "filter", "e": g.choice([["!=", V("s"), V("o")], ["=", V("o"), g.pick(OBJS_C)], ["bound", "x"], ["!bound", "x"], ["isIRI", "o"], ["exists", [[V(g.choice(["s", "o"])), g.pick(PREDS), V("e1")]]], ["notexists", [[V("s"), g.pick(PREDS), V("e1")]]]])})
         elif k == "bind":
             if not any(e["t"] == "bind" for e in where):
                 where.append({"t": "bind", "var": "bv", "e": g.choice([V("s"), g.pick(OBJS_C)])})
